@@ -153,6 +153,9 @@ def run(repo, rep, tier):
     for q in FINDERS:
         if "Moon.Moon." + q not in bad:
             rep.ok("R-ENUM", "Moon.Moon." + q, "string dispatch exhaustive for the validated set")
+    # every target string the validation admits must take the branch it names (no raw comparison next to a case-normalised one)
+    from .c20 import r_enum_norm
+    r_enum_norm(repo, rep, funcs={(MOD, f_) for f_ in repo.mod(MOD).functions})
     fam = [(MOD, q) for q in repo.mod(MOD).functions if not repo.mod(MOD).is_demo(q) and "<locals>" not in q]
     timearg_scan(repo, rep, fam)
     units.check_functions(repo, rep, fam)
